@@ -99,6 +99,29 @@ def run_case(settings, init, op, plan, special=None):
                 outcome = call(w.cache.set, 'a', Unpicklable())
             elif special == 'unpicklable-push':
                 outcome = call(w.cache.push, [Unpicklable()] * 3)
+            elif special and special.startswith('badkey-'):
+                # a key that cannot be encoded together with a value that
+                # goes to a file
+                big, key = 'v' * 40, (Unpicklable(), 1)
+                what = special[len('badkey-'):]
+                if what == 'set':
+                    outcome = call(w.cache.set, key, big)
+                elif what == 'setitem':
+                    outcome = call(w.cache.__setitem__, key, big)
+                elif what == 'add':
+                    outcome = call(w.cache.add, key, big)
+                elif what == 'incr':
+                    outcome = call(w.cache.incr, key, 1, 2 ** 70)
+                elif what == 'touch':
+                    outcome = call(w.cache.touch, key, 5)
+                elif what == 'pop':
+                    outcome = call(w.cache.pop, key, big)
+                elif what == 'set-read':
+                    import io
+                    outcome = call(w.cache.set, key, io.BytesIO(b'r' * 40),
+                                   read=True)
+                else:
+                    raise ValueError(special)
             else:
                 outcome = impl_op(w.cache, op)
         finally:
@@ -270,7 +293,9 @@ def main(tier, seed):
             for init in inits:
                 units.append(('fault', st, init, op, None))
         for special in ('surrogate', 'surrogate-add', 'unpicklable',
-                        'unpicklable-push'):
+                        'unpicklable-push', 'badkey-set', 'badkey-setitem',
+                        'badkey-add', 'badkey-incr', 'badkey-touch',
+                        'badkey-pop', 'badkey-set-read'):
             units.append(('fault', st, 'file', None, special))
     depth = 2 if tier == 'quick' else 3
     for ch in range(4):
